@@ -24,7 +24,7 @@ type c10scn struct {
 	lenRel    string // shorter | equal | longer (new name relative to the old one)
 	unfmt     bool   // files are not gofmt-formatted
 	comments  string // none | before (line above) | before-name (block comments around the name) | inside | after | doc
-	layout    string // single | split-late | split-early
+	layout    string // single | split-late | split-early | split-twice (the same renamed call in two later files)
 	nRenames  int
 	bothFlags bool
 	second    bool // the renamed call's argument is itself a derive call: it can only be registered (and renamed) in a second pass, after a reload
@@ -148,6 +148,10 @@ func (s c10scn) filesN(onlyKept bool) pkgFiles {
 			calls = append(calls, call{n, 3})
 		}
 	}
+	if s.layout == "split-twice" && len(calls) == 3 {
+		// the same call (hence the same renaming) in two different files
+		calls[2] = calls[1]
+	}
 	if onlyKept {
 		calls = calls[:1]
 	}
@@ -178,6 +182,15 @@ func (s c10scn) filesN(onlyKept bool) pkgFiles {
 		}
 		fs["b.go"] = src + s.filler("tailb")
 		fs["c.go"] = "package m\n\n" + s.filler("onlyc")
+	case "split-twice":
+		fs["a.go"] = hdr + types + s.fn("use0", calls[0].name, calls[0].tn)
+		fs["b.go"] = "package m\n\n" + s.filler("tailb")
+		if len(calls) > 1 {
+			fs["b.go"] = "package m\n\n" + s.fn2("use1", calls[1].name, calls[1].tn, s.second) + s.filler("tailb")
+		}
+		if len(calls) > 2 {
+			fs["c.go"] = "package m\n\n" + s.fn2("use2", calls[2].name, calls[2].tn, s.second) + s.filler("tailc")
+		}
 	case "split-early":
 		src := hdr + types
 		for i, c := range calls {
@@ -196,9 +209,12 @@ func c10Scenarios() []c10scn {
 		for _, lr := range []string{"shorter", "equal", "longer"} {
 			for _, unfmt := range []bool{false, true} {
 				for _, cm := range []string{"none", "before", "before-name", "inside", "after", "doc"} {
-					for _, lay := range []string{"single", "split-late", "split-early"} {
+					for _, lay := range []string{"single", "split-late", "split-early", "split-twice"} {
 						for n := 1; n <= 2; n++ {
 							for _, both := range []bool{false, true} {
+								if lay == "split-twice" && (n != 2 || (mech == "autoname" && !both)) {
+									continue // two files with the same renaming; -autoname alone rejects a repeated conflicting call
+								}
 								for _, late := range []bool{false, true} {
 									for _, pregen := range []bool{false, true} {
 										out = append(out, c10scn{mech, lr, unfmt, cm, lay, n, both, false, late, pregen})
@@ -529,7 +545,7 @@ func checkC10(tier string) {
 	rep.Cov["call_sites_renamed"] = renamedTotal
 	rep.Cov["files_rewritten_and_verified"] = rewrittenFiles
 	rep.Cov["files_verified_untouched"] = untouchedFiles
-	rep.Cov["rule"] = "state = one package (and flag set); part 1: every package of the C09 corpus (successes, generator errors, registration errors, load errors, multi-package invocations) run without flags, whole-tree snapshot (names, modes, SHA-256) before/after, only derived.gen.go may differ; part 2: every rename scenario of the product {dedup, autoname} x {new name shorter, equal, longer} x {gofmt-ed, not} x {no comments, on the line before, block comments directly before and after the name, inside, after the call, doc comments} x {one file, renamed call in a later file plus a file without calls, renamed call in the first file followed by unformatted files} x {1, 2 renamed call sites} x {mechanism's flag, both flags} x {renamed in the first pass, renamed in a second pass after a reload because its argument is itself a derive call} x {files sorting before, after derived.gen.go} x {no derived.gen.go yet, one left by a run made before the calls to rename were added}; plus packages where a file with a renamed call is followed by a file whose call is refused, or where the file with the call to rename (or another file) has a syntax error (the failing run may leave nothing but rewritten files behind); oracle: files without a renamed call byte-identical, each rewritten file == go/format(original with exactly the renamed call identifiers substituted, positions from an independent parse, new names taken from goderive's own log), result type-checks, new names exist in derived.gen.go; non-trivial = rename scenarios + failing no-flag runs"
+	rep.Cov["rule"] = "state = one package (and flag set); part 1: every package of the C09 corpus (successes, generator errors, registration errors, load errors, multi-package invocations) run without flags, whole-tree snapshot (names, modes, SHA-256) before/after, only derived.gen.go may differ; part 2: every rename scenario of the product {dedup, autoname} x {new name shorter, equal, longer} x {gofmt-ed, not} x {no comments, on the line before, block comments directly before and after the name, inside, after the call, doc comments} x {one file, renamed call in a later file plus a file without calls, renamed call in the first file followed by unformatted files, the same renaming in two different files} x {1, 2 renamed call sites} x {mechanism's flag, both flags} x {renamed in the first pass, renamed in a second pass after a reload because its argument is itself a derive call} x {files sorting before, after derived.gen.go} x {no derived.gen.go yet, one left by a run made before the calls to rename were added}; plus packages where a file with a renamed call is followed by a file whose call is refused, or where the file with the call to rename (or another file) has a syntax error (the failing run may leave nothing but rewritten files behind); oracle: files without a renamed call byte-identical, each rewritten file == go/format(original with exactly the renamed call identifiers substituted, positions from an independent parse, new names taken from goderive's own log), result type-checks, new names exist in derived.gen.go; non-trivial = rename scenarios + failing no-flag runs"
 	rep.Cov["bound"] = fmt.Sprintf("%d no-flag packages + %d rename scenarios", len(progs), len(scns))
 	rep.Cov["exhaustive"] = true
 	rep.Sample(map[string]interface{}{"scenario": scns[len(scns)/2].label(), "files": scns[len(scns)/2].files()})
